@@ -13,28 +13,28 @@ import (
 )
 
 var sisPkgs = []sisPkg{
-	mkSis[sisfr_koalabear.Element]("koalabear", "koalabear", func(seed int64, ld, lb, mx int) ([][]sisfr_koalabear.Element, func(v, res []sisfr_koalabear.Element) error, int, error) {
+	mkSis[sisfr_koalabear.Element]("koalabear", "koalabear", "field/koalabear/sis", func(seed int64, ld, lb, mx int) ([][]sisfr_koalabear.Element, func(v, res []sisfr_koalabear.Element) error, int, error) {
 		r, err := sis_koalabear.NewRSis(seed, ld, lb, mx)
 		if err != nil {
 			return nil, nil, 0, err
 		}
 		return r.A, r.Hash, r.Degree, nil
 	}),
-	mkSis[sisfr_babybear.Element]("babybear", "babybear", func(seed int64, ld, lb, mx int) ([][]sisfr_babybear.Element, func(v, res []sisfr_babybear.Element) error, int, error) {
+	mkSis[sisfr_babybear.Element]("babybear", "babybear", "field/babybear/sis", func(seed int64, ld, lb, mx int) ([][]sisfr_babybear.Element, func(v, res []sisfr_babybear.Element) error, int, error) {
 		r, err := sis_babybear.NewRSis(seed, ld, lb, mx)
 		if err != nil {
 			return nil, nil, 0, err
 		}
 		return r.A, r.Hash, r.Degree, nil
 	}),
-	mkSis[sisfr_goldilocks.Element]("goldilocks", "goldilocks", func(seed int64, ld, lb, mx int) ([][]sisfr_goldilocks.Element, func(v, res []sisfr_goldilocks.Element) error, int, error) {
+	mkSis[sisfr_goldilocks.Element]("goldilocks", "goldilocks", "field/goldilocks/sis", func(seed int64, ld, lb, mx int) ([][]sisfr_goldilocks.Element, func(v, res []sisfr_goldilocks.Element) error, int, error) {
 		r, err := sis_goldilocks.NewRSis(seed, ld, lb, mx)
 		if err != nil {
 			return nil, nil, 0, err
 		}
 		return r.A, r.Hash, r.Degree, nil
 	}),
-	mkSis[sisfr_bls12_377.Element]("bls12-377", "bls12_377_fr", func(seed int64, ld, lb, mx int) ([][]sisfr_bls12_377.Element, func(v, res []sisfr_bls12_377.Element) error, int, error) {
+	mkSis[sisfr_bls12_377.Element]("bls12-377", "bls12_377_fr", "ecc/bls12-377/fr/sis", func(seed int64, ld, lb, mx int) ([][]sisfr_bls12_377.Element, func(v, res []sisfr_bls12_377.Element) error, int, error) {
 		r, err := sis_bls12_377.NewRSis(seed, ld, lb, mx)
 		if err != nil {
 			return nil, nil, 0, err
